@@ -205,6 +205,20 @@ chk("C02",
     "TLA+ spec + TLC; spec->impl replay (compiled and executed, two C++ standards) and impl->spec trace validation",
     "DESIGN.md §5 C02")
 
+chk("C11",
+    "spec/enums/Enums.tla: rustc's discriminant rule (explicit literal, else previous+1, first 0), the TABLE representation scheme "
+    "and the POSITION fast path (index / ordinal / array slot); a builder machine enumerates every enum with <=3 variants over 8 "
+    "literals + implicit (quick) / <=5 variants (thorough) and -simulate samples up to 8 variants; TLC checks TableCorrect and "
+    "PositionIffContiguous (the fast path is sound exactly for enums numbered 0..n-1 in order) and refutes a contiguity test that "
+    "forgets the start at 0. Each enum is compiled with the real macro: `V as i32` printed by the crate is the ground truth and "
+    "must equal the spec; the gcc-compiled header constants and a round trip through the exported function, g++ Value/AsFFI/"
+    "FromFFI/method round trip, the JS module executed in node (ffiValue, name, lookup by number, method round trip) must agree; "
+    "for dart, kotlin and nanobind the tables and the chosen scheme are parsed from the generated text and interpreted by the "
+    "spec's scheme model (position scheme only where Contiguous holds).",
+    "Dart, Kotlin and Python are not executed. JS runs with a stub wasm module (identity exports).",
+    "TLA+ spec + TLC; spec->impl replay compiled/executed (rustc, gcc, g++, node) and scheme interpretation for dart/kotlin/nanobind",
+    "DESIGN.md §5 C11")
+
 NOT_YET = {}
 
 
